@@ -55,8 +55,19 @@ fn expect_inplace(st: &mut Stats, op: &str, m: &mut M, f: impl FnOnce(&mut M), w
 fn products(st: &mut Stats, rng: &mut Rng, r: usize, k: usize, c: usize) {
     for _ in 0..3 {
         st.next_case();
-        let a = rand_dm(rng, r, k);
-        let b = rand_dm(rng, k, c);
+        let mut a = rand_dm(rng, r, k);
+        let mut b = rand_dm(rng, k, c);
+        // value coincidences a fast path could key on: symmetric / nearly symmetric / identity / all-equal-rows /
+        // scalar-multiple operands (still compared entry by entry with the model)
+        match rng.below(8) {
+            0 if k == c => { for i in 0..k { for j in 0..i { b.a[i][j] = b.a[j][i]; } } }
+            1 if k == c && k >= 2 => { for i in 0..k { for j in 0..i { b.a[i][j] = b.a[j][i]; } } let (i, j) = if rng.bool() { (k - 1, rng.usize(0, k - 2)) } else { (rng.usize(1, k - 1), 0) }; b.a[i][j] = b.a[i][j] + Rat::ONE; }
+            2 if k == c => { b = DM::eye(k); }
+            3 if r == k => { a = DM::eye(r); }
+            4 => { if k > 0 { let row = b.a[0].clone(); for i in 0..k { b.a[i] = row.clone(); } } }
+            5 if r == k && k == c => { let f = Rat::int(rng.nzint(3)); b = DM::from_fn(k, c, |i, j| a.a[i][j] * f); }
+            _ => {}
+        }
         let v = rand_vec(rng, k);
         let d = || format!("A={} B={} v={:?}", a.show(), b.show(), v);
         let want = a.mul(&b);
@@ -282,6 +293,24 @@ fn norms(st: &mut Stats, rng: &mut Rng) {
         match catch(|| (mw.norm_frob(), mw.norm_max())) {
             Outcome::Ok((f, mx)) => if !(f.is_finite() && f >= mxw * (1.0 - 1e-12) && f <= s1 * (1.0 + 1e-12) && mx == mxw) { st.violation("C03:norm_frob:wide-range", format!("norm_frob = {:e}, norm_max = {:e} but max|a| = {:e}, sum|a| = {:e}; A={:?}", f, mx, mxw, s1, wide)); },
             o => st.violation("C03:norm_frob:panic", o.describe()),
+        }
+    }
+    // entrywise norms at uniformly extreme magnitudes (every norm is representable): compared with the same norm of the
+    // matrix rescaled by an exact power of two
+    if r * c > 0 {
+        let e = *rng.pick(&[130i32, -130, 400, -400, 60, -60]);
+        let base: Vec<Vec<f64>> = (0..r).map(|_| (0..c).map(|_| rng.int(-9, 9) as f64).collect()).collect();
+        let mk = |sc: f64| { let mut m = Matrix::<f64>::new(r, c, 0.0); for i in 0..r { for j in 0..c { m[(i, j)] = base[i][j] * sc; } } m };
+        let (m0, m1) = (mk(1.0), mk(2f64.powi(e)));
+        for pnorm in [1.0, 2.0, 3.0, 2.5] {
+            st.eval();
+            if let (Outcome::Ok(n0), o) = (catch(|| m0.norm_p(pnorm)), catch(|| m1.norm_p(pnorm))) {
+                let want = n0 * 2f64.powi(e);
+                // p*|e| beyond the exponent range makes the naive sum over/underflow: the textbook value still exists, but
+                // the property's "textbook definition" is only demanded here where the direct formula is representable
+                let representable = (pnorm * e.abs() as f64) < 900.0;
+                if representable { match o { Outcome::Ok(n1) => if !(((n1 - want) / want.max(f64::MIN_POSITIVE)).abs() <= tol || (want == 0.0 && n1 == 0.0)) { st.violation("C03:norm_p:extreme-magnitude", format!("norm_p({}) of A*2^{} = {:e}, of A times 2^{} = {:e}; A={:?}", pnorm, e, n1, e, want, base)); }, oo => st.violation("C03:norm_p:panic", oo.describe()) } }
+            }
         }
     }
     st.count("norm-cases");
